@@ -95,3 +95,84 @@ Proof.
   vm_compute in Hw. injection Hw as <-.
   split; [vm_compute; reflexivity|]. vm_compute. repeat split.
 Qed.
+
+(* ---------- moving a NON-identifiable container ----------
+   sK = sR plus an empty package /b (17).  Moving ELEMENTS (4) of /p1 - which holds /p1/S - into /b: the per-path
+   re-keying gives /b/S, reference 13 follows. *)
+Definition sK : list op := sR ++ [OpCreateNamed 1 nPKG (BS "b")].
+
+Lemma sK_inv : exists w, runs sK empty_world = Val w /\ Inv06 tiny tiny_check_fn w.
+Proof.
+  eexists. split; [vm_compute; reflexivity|].
+  eapply (C04_C05_reachable_partial tiny tiny_el tiny_en tiny_check_fn LATEST [] tiny_tables_ok sK);
+    vm_compute; reflexivity.
+Qed.
+
+Example move_container_example :
+  exists w w', runs sK empty_world = Val w /\ Inv06 tiny tiny_check_fn w /\
+    move_here 17 4 w = Val (OK 4, w') /\
+    model_of 17 w = Val (OK 0, w) /\ model_of 4 w = Val (OK 0, w) /\ identifiable tiny w 4 = false /\
+    collision06 tiny w 17 4 = false /\
+    texts w' = [Some (BS "/p1"); Some (BS "/b/S"); Some (BS "/p10"); Some (BS "/p1/zzz"); Some (BS "/q")] /\
+    assoc_get (BS "/p1/S") (idents_of w 0) = Some 5 /\ assoc_get (BS "/b/S") (idents_of w' 0) = Some 5 /\
+    assoc_get (BS "/p1/S") (idents_of w' 0) = None.
+Proof.
+  destruct sK_inv as (w & Hw & HI). exists w. eexists.
+  split; [exact Hw|]. split; [exact HI|].
+  vm_compute in Hw. injection Hw as <-.
+  split; [vm_compute; reflexivity|]. vm_compute. repeat split.
+Qed.
+
+(* FINDING (C04-move-container-duplicates-paths): the container case has no uniqueness check.  sX = sR plus a package
+   /c (17) with a sub-package /c/S (20), referenced by 22.  Moving ELEMENTS (4) of /p1 into /c gives the SYSTEM S (5)
+   the path /c/S too: two elements with one path, the index entry of package 20 is overwritten, and reference 22 -
+   which is not in the moved subtree and keeps its text - now resolves to element 5. *)
+Definition sX : list op :=
+  sR ++ [OpCreateNamed 1 nPKG (BS "c"); OpCreateSub 17 nPKGS; OpCreateNamed 19 nPKG (BS "S");
+         OpCreateSub 10 nREF; OpSetRefTarget 22 20].
+
+Theorem container_collision :
+  exists w w', runs sX empty_world = Val w /\ Inv06 tiny tiny_check_fn w /\
+    move_here 17 4 w = Val (OK 4, w') /\ identifiable tiny w 4 = false /\
+    collision06 tiny w 17 4 = true /\
+    ref_text tiny w 22 = Some (BS "/c/S") /\ ref_text tiny w' 22 = Some (BS "/c/S") /\
+    assoc_get (BS "/c/S") (idents_of w 0) = Some 20 /\ assoc_get (BS "/c/S") (idents_of w' 0) = Some 5 /\
+    index_ok tiny w = true /\ index_ok tiny w' = false.
+Proof.
+  assert (HI : exists w, runs sX empty_world = Val w /\ Inv06 tiny tiny_check_fn w).
+  { eexists. split; [vm_compute; reflexivity|].
+    eapply (C04_C05_reachable_partial tiny tiny_el tiny_en tiny_check_fn LATEST [] tiny_tables_ok sX);
+      vm_compute; reflexivity. }
+  destruct HI as (w & Hw & HI). exists w. eexists.
+  split; [exact Hw|]. split; [exact HI|].
+  vm_compute in Hw. injection Hw as <-.
+  split; [vm_compute; reflexivity|]. vm_compute. repeat split.
+Qed.
+
+(* ---------- moving a subtree to another model ----------
+   sC2 = sR plus a second model (root 17, AR-PACKAGES 18) that already has a package p10 (19).  Moving /p10 (7) of model 0
+   there: the moved package becomes p10_1 in the DESTINATION index; reference 14 (inside, text "/p10" = the moved element)
+   follows to "/p10_1"; references 12, 13 (inside, pointing to /p1.. outside), 15, 16 (dangling) keep their text; all
+   five are registered in the destination's referrer map and gone from the source's. *)
+Definition sC2 : list op :=
+  sR ++ [OpNewModel; OpCreateFile 1 (BS "g") 2; OpCreateSub 17 nPKGS; OpCreateNamed 18 nPKG (BS "p10")].
+
+Example move_cross_example :
+  exists w w', runs sC2 empty_world = Val w /\ Inv06 tiny tiny_check_fn w /\
+    move_here 18 7 w = Val (OK 7, w') /\
+    model_of 18 w = Val (OK 1, w) /\ model_of 7 w = Val (OK 0, w) /\
+    texts w' = [Some (BS "/p1"); Some (BS "/p1/S"); Some (BS "/p10_1"); Some (BS "/p1/zzz"); Some (BS "/q")] /\
+    assoc_get (BS "/p10") (idents_of w 0) = Some 7 /\ assoc_get (BS "/p10_1") (idents_of w' 1) = Some 7 /\
+    assoc_get (BS "/p10") (idents_of w' 1) = Some 19 /\ assoc_get (BS "/p10") (idents_of w' 0) = None /\
+    origins_list w' 0 = [] /\
+    origins_list w' 1 = [(BS "/p1", [12]); (BS "/p1/S", [13]); (BS "/p10_1", [14]); (BS "/p1/zzz", [15]); (BS "/q", [16])].
+Proof.
+  assert (HI : exists w, runs sC2 empty_world = Val w /\ Inv06 tiny tiny_check_fn w).
+  { eexists. split; [vm_compute; reflexivity|].
+    eapply (C04_C05_reachable_partial tiny tiny_el tiny_en tiny_check_fn LATEST [] tiny_tables_ok sC2);
+      vm_compute; reflexivity. }
+  destruct HI as (w & Hw & HI). exists w. eexists.
+  split; [exact Hw|]. split; [exact HI|].
+  vm_compute in Hw. injection Hw as <-.
+  split; [vm_compute; reflexivity|]. vm_compute. repeat split.
+Qed.
